@@ -21,7 +21,7 @@ Definition src2_load_special_value (v__val : pyval) : pyval :=
    | BErr => PErr
    end).
 
-(* saml2/client_base.py:Base.__init__ (the body of the loop over attribute_defaults between config.getattr and setattr, cut out by harness/c06.py:config_slices), lines 171-184 *)
+(* saml2/client_base.py:Base.__init__ (the body of the loop over attribute_defaults between config.getattr and setattr, cut out by harness/c06.py:config_slices), lines 179-192 *)
 Definition src2_option_value (v_attr : pyval) (v_val_config : pyval) (v_val_default : pyval) : pyval :=
   let v_val := PErr in
   let v_word := PErr in
